@@ -168,18 +168,11 @@ Fixpoint read_list (fuel : nat) (sh : shell) (sep : string) (text : string) : li
     ORIGINAL string by [o] ([None] = end of the string). *)
 Definition hazard (sh : shell) (c : ascii) (o : option ascii) : bool :=
   match sh with
-  | Bash =>
-      (* bash.rs does not escape the backslash: it swallows or is swallowed by what follows *)
-      Ascii.eqb c c_bs &&
-      match o with
-      | None => true
-      | Some d => is_one_of d [c_dq; c_bt; c_dollar; c_bs; c_nl]
-      end
   | Pwsh =>
       (* U+2000..U+203F start with E2 80; U+201C/D/E are double quotes for PowerShell and are not
          escaped by pwsh.rs (the class is the whole E2 80 prefix: one byte of lookahead) *)
       Ascii.eqb c (ch 226) && match o with Some d => Ascii.eqb d (ch 128) | None => false end
-  | Fish | Zsh => false
+  | Bash | Fish | Zsh => false
   end.
 
 Fixpoint admissibleb (sh : shell) (s : string) : bool :=
